@@ -20,8 +20,11 @@ CONSTANTS
   Kinds = {"fd", "tmr"}
   Keys = {1}
   SrcOpts <- Opts_all
+  EvKinds = {"ps", "fd", "tmr"}
   MaxBatch = 2
   Errnos = {11, 2}
+  TbVals = {}
+  TickVals = {}
   Targets = {"A"}
   AutoVals = {TRUE}
   Senders = {"A"}
